@@ -419,6 +419,13 @@ def explore(harness, *, tier='quick', timeout_ms=20000, max_paths=20000, budget_
                 if confirm:
                     ok, info = confirm_violation(harness, label, model, timeout_ms, tier)
                     v['replay'] = info
+                    if not ok and info.get('labels'):
+                        # the real code violates the property on this input, under another obligation than the
+                        # symbolic run predicted (e.g. numpy yields nan where exact arithmetic raises): report what
+                        # the real code does
+                        v['predicted_label'] = label
+                        v['label'] = info['labels'][0]
+                        ok = True
                     if ok:
                         st['violations'].append(v)
                         confirmed_labels.add(label)
